@@ -20,20 +20,22 @@ type deferred struct {
 }
 
 type frame struct {
-	e         *Exec
-	g         *G
-	caller    *frame
-	fn        *ssa.Function
-	block     *ssa.BasicBlock
-	prevBlock *ssa.BasicBlock
-	env       map[ssa.Value]Value
-	locals    []Value
-	defers    *deferred
-	result    Value
-	panicking bool
-	panicVal  interface{}
-	visits    map[int]int
-	phitemps  []Value
+	spinVisits map[int]int
+	spinEpoch  int
+	e          *Exec
+	g          *G
+	caller     *frame
+	fn         *ssa.Function
+	block      *ssa.BasicBlock
+	prevBlock  *ssa.BasicBlock
+	env        map[ssa.Value]Value
+	locals     []Value
+	defers     *deferred
+	result     Value
+	panicking  bool
+	panicVal   interface{}
+	visits     map[int]int
+	phitemps   []Value
 }
 
 func (e *Exec) constValue(c *ssa.Const) Value {
@@ -309,6 +311,20 @@ func (fr *frame) run() {
 			fr.visits = map[int]int{}
 		}
 		fr.visits[fr.block.Index]++
+		if lim := fr.e.spinLimit; lim > 0 {
+			if g := fr.e.curG(fr); g != nil && !g.isMain {
+				if fr.spinVisits == nil || fr.spinEpoch != g.epoch {
+					fr.spinVisits, fr.spinEpoch = map[int]int{}, g.epoch
+				}
+				fr.spinVisits[fr.block.Index]++
+				if fr.spinVisits[fr.block.Index] > lim {
+					// a livelock: the goroutine only burns CPU. Park it for good,
+					// so that what the others then (fail to) observe is reported.
+					fr.e.spinParked++
+					fr.e.block(g, fmt.Sprintf("spinning in %s (parked)", fr.fn), func() bool { return false })
+				}
+			}
+		}
 		if fr.visits[fr.block.Index] > fr.e.unwind {
 			panic(pathEnd{"truncated", fmt.Sprintf("unwind bound %d exceeded in %s block %d", fr.e.unwind, fr.fn, fr.block.Index)})
 		}
